@@ -714,9 +714,12 @@ class InspectFunction(object):
 
         def fetch(dep: DDSPath) -> PyHash:
             key = gctx.resolved_references.get(dep)
-            assert (
-                key is not None
-            ), f"Missing dep {dep} for {fun_path}: {call_stack} {gctx.resolved_references}"
+            if key is None:
+                raise DDSException(
+                    f"Function {fun_path} loads the path {dep} before this path is produced: "
+                    f"the path is kept later in the same evaluation. Suggestion: call the function "
+                    f"that produces {dep} before loading it. Call stack: {call_stack}"
+                )
             return key
 
         indirect_deps_sigs = dict([(dep, fetch(dep)) for dep in indirect_dep])
@@ -955,6 +958,8 @@ class InspectFunction(object):
             )
             inner_intro = _introspect(called_fun, arg_ctx, gctx, new_call_stack)
             inner_intro = inner_intro._replace(store_path=store_path)
+            # Register the path as a potential link to dependencies (dds.load later in the evaluation)
+            gctx.resolved_references[store_path] = inner_intro.fun_return_sig
             return inner_intro
 
         # Normal function call.
